@@ -1,7 +1,7 @@
 (* C09 - property theorems only; proofs live in Client/ClientLemmas.v, Client/ClientProofs.v,
    Client/CheckProofs.v *)
 From VT Require Import Client.ClientLemmas Client.CliCheck Client.ClientProofs Client.Witness.
-From VT Require Import Check.C09Check Client.CheckProofs Client.HistoryProofs.
+From VT Require Import Check.C09Check Client.CheckProofs Client.HistoryProofs Check.C09XCheck Client.ClientXProofs.
 Open Scope N_scope.
 
 (* ack-id invariant: after every history (any length, any configuration) and in every intermediate
@@ -150,3 +150,53 @@ Print Assumptions C09_corr_accepts_model.
 Theorem C09_checker_accepts_clean : c09_code (model_case cfg_w witness_clean) = 0%nat.
 Proof. exact c09_accepts_clean. Qed.
 Print Assumptions C09_checker_accepts_clean.
+
+(* re-entrant delivery (Client/ClientX.v): the LAST attachment of a BINARY_EVENT arrives and its handler
+   delivers the next server frame before returning.  The nested frame is handled by a complete, ordinary
+   _handle_eio_message in the state where the reassembled packet has already been consumed
+   (_binary_packet = None): its effects and state change are exactly those of delivering it on its own -
+   it is not mistaken for a further attachment, nothing is lost - and the outer event is handled once and
+   acknowledged once, with its own return value, after the nested effects *)
+Theorem C09_nested_binary_event : forall c loads s r0 payload r' ev args h a v payload2 tbl2 fr,
+  binpkt s = Some r0 -> add_attachment r0 payload = Ok (r', true) -> type_is (rp r') BINARY_EVENT = true ->
+  split_event (pdata (rp r')) = Ok (PStr ev, args) -> reserved (PStr ev) = false ->
+  let ns := ns_or_default (pns (rp r')) in
+  responsible c (PStr ev) ns args = Some (h, a) -> arity_fits c h (List.length a) = true -> returns c h = Some v ->
+  let s0 := with_binpkt s None in
+  let s1 := st (deliver c payload2 tbl2) s0 in
+  ack_effects s1 ns (pid (rp r')) v = Ok fr ->
+  binpkt s0 = None /\
+  handle_eio_message_nested c loads payload (deliver c payload2 tbl2) s
+  = (s1, Call h a :: ef (deliver c payload2 tbl2) s0 ++ fr, Ok tt).
+Proof. exact nested_binary_event. Qed.
+Print Assumptions C09_nested_binary_event.
+(* the same for a text EVENT *)
+Theorem C09_nested_text_event : forall c loads s payload r ev args h a v payload2 tbl2 fr,
+  binpkt s = None -> decode loads payload = Ok r ->
+  type_is (rp r) CONNECT = false -> type_is (rp r) DISCONNECT = false -> type_is (rp r) EVENT = true ->
+  split_event (pdata (rp r)) = Ok (PStr ev, args) -> reserved (PStr ev) = false ->
+  let ns := ns_or_default (pns (rp r)) in
+  responsible c (PStr ev) ns args = Some (h, a) -> arity_fits c h (List.length a) = true -> returns c h = Some v ->
+  let s1 := st (deliver c payload2 tbl2) s in
+  ack_effects s1 ns (pid (rp r)) v = Ok fr ->
+  handle_eio_message_nested c loads payload (deliver c payload2 tbl2) s
+  = (s1, Call h a :: ef (deliver c payload2 tbl2) s ++ fr, Ok tt).
+Proof. exact nested_text_event. Qed.
+Print Assumptions C09_nested_text_event.
+(* the model's run of a witness history with all three kinds of nested frame (ACK for an outstanding
+   callback inside a binary event, EVENT for another namespace inside a text event, header of the next
+   binary event inside a binary event) passes the extended checker - correspondence and every clause -
+   and produces the effects listed *)
+Theorem C09_nested_model_passes_checker :
+  c09x_code (xmodel_case cfg_x witness_nested) = 0%nat /\
+  map snd (snd (xrun cfg_x cli_init witness_nested)) =
+  [ [Sent (PStr (s2l "0{}")); Sent (PStr (s2l "0/a,{}")); Ret PNone];
+    [Sent (PStr (s2l "2/a,1[""q""]"))];
+    [];
+    [Call 3 [PBytes [1; 2]]; CbCall 7 [PStr (s2l "ok")]; Sent (PStr (s2l "34[1,""x""]"))];
+    [Call 3 [PInt 1]; Call 5 [PInt 2]; Sent (PStr (s2l "3/a,3[""n""]")); Sent (PStr (s2l "39[1,""x""]"))];
+    [];
+    [Call 3 [PBytes [5]]];
+    [Call 5 [PBytes [122; 122]]; Sent (PStr (s2l "3/a,8[""n""]"))] ].
+Proof. exact nested_model_passes_checker. Qed.
+Print Assumptions C09_nested_model_passes_checker.
